@@ -222,6 +222,8 @@ pub enum Ev {
     Timer(u8),
     StreamError,
     StreamEnd,
+    /// the owner calls DnsRequestSender::shutdown(): no new requests, pending ones are served
+    Shutdown,
     Poll,
 }
 
@@ -239,6 +241,7 @@ impl Ev {
             Ev::Timer(i) => format!("timer:{i}"),
             Ev::StreamError => "stream-error".into(),
             Ev::StreamEnd => "stream-end".into(),
+            Ev::Shutdown => "shutdown".into(),
             Ev::Poll => "poll".into(),
         }
     }
@@ -261,6 +264,7 @@ impl Ev {
             ("timer", Some(i)) => Ev::Timer(i),
             ("stream-error", None) => Ev::StreamError,
             ("stream-end", None) => Ev::StreamEnd,
+            ("shutdown", None) => Ev::Shutdown,
             ("poll", None) => Ev::Poll,
             _ => return None,
         })
@@ -471,6 +475,9 @@ impl Sys {
             if !self.end_used {
                 v.push(Ev::StreamEnd);
             }
+        }
+        if !self.mux.is_shutdown() {
+            v.push(Ev::Shutdown);
         }
         for i in 0..n {
             if self.live(i) && !self.reqs[i].cancelled {
@@ -776,6 +783,12 @@ impl Sys {
             Ev::StreamEnd => {
                 self.end_used = true;
                 self.push_inbound(Inb::End, MItem::End);
+            }
+            Ev::Shutdown => {
+                self.mux.shutdown();
+                if let Some(l) = l.as_deref_mut() {
+                    l.outcome(if self.live_count() > 0 { "mux:shutdown-with-pending-requests" } else { "mux:shutdown-idle" });
+                }
             }
             Ev::Poll => return self.poll(l),
         }
@@ -1111,9 +1124,9 @@ pub fn configs(thorough: bool) -> (Vec<Cfg>, usize) {
     let c = |k, max_active, qmax| Cfg { k, max_active, qmax, wd: false, odd: false };
     let o = |k, max_active, qmax| Cfg { k, max_active, qmax, wd: false, odd: true };
     if thorough {
-        (vec![c(3, 32, 4), c(3, 2, 3), c(3, 1, 3), c(2, 32, 5), c(2, 1, 4), o(2, 32, 3), o(3, 32, 2)], 12)
+        (vec![c(3, 32, 4), c(3, 2, 3), c(3, 1, 3), c(2, 32, 5), c(2, 1, 4), o(2, 32, 3), o(3, 32, 2), c(2, 0, 2)], 11)
     } else {
-        (vec![c(2, 32, 3), c(2, 1, 3), c(3, 32, 3), c(3, 2, 2), o(2, 32, 2)], 9)
+        (vec![c(2, 32, 3), c(2, 1, 3), c(3, 32, 3), c(3, 2, 2), o(2, 32, 2), c(2, 0, 2)], 9)
     }
 }
 
@@ -1349,4 +1362,426 @@ pub fn run(ctx: &Ctx) {
     ctx.set("mux_wd_configs", cfgs_json(&wcfgs));
 
     run_burst(ctx);
+    run_saturation(ctx);
+    run_tsig(ctx);
+}
+
+// ------------------------------------------------------------------------------------------
+// id-space saturation: forcing the id generator to collide
+
+/// Fill the multiplexer until all 65,536 ids are in flight (every draw of the id generator then
+/// collides with an active id: the retry loop and its "exhausted" exit are exercised for real),
+/// remove half of the requests (cancel / timeout), refill (every new id is necessarily the id of
+/// a just-removed request), then deliver late replies to removed requests and replies to current
+/// ones: a response goes to the request that holds its id NOW and to nobody else (a late reply
+/// whose id was re-issued is indistinguishable for a multiplexer that routes by id: allowed),
+/// ids in flight stay pairwise distinct throughout, a closed connection fails all of them.
+fn saturation_case(max_active: usize, l: &mut Local) -> Option<Finding> {
+    const IDS: usize = 65_536;
+    timers_reset();
+    let sh = Arc::new(Mutex::new(StreamShared::default()));
+    let (handle, mut wire) = BufDnsStreamHandle::new(addr());
+    let mut mux = DnsMultiplexer::new(SimStream { sh: sh.clone(), addr: addr() }, handle).with_max_active_requests(max_active);
+    let mut cx = Context::from_waker(Waker::noop());
+    struct R {
+        id: u16,
+        rx: Option<DnsResponseStream>,
+        timer: Option<usize>,
+        live: bool,
+    }
+    let mut reqs: Vec<R> = Vec::with_capacity(110_000);
+    let mut holder: Vec<Option<usize>> = vec![None; IDS];
+    let mut in_flight = 0usize;
+    let mut refused = 0usize;
+    let limit = max_active.min(IDS);
+
+    // one send; Ok(true) = accepted
+    let mut send = |mux: &mut DnsMultiplexer<SimStream>, reqs: &mut Vec<R>, holder: &mut Vec<Option<usize>>, in_flight: &mut usize| -> Result<bool, Finding> {
+        let i = reqs.len();
+        let mut cx = Context::from_waker(Waker::noop());
+        let req = DnsRequest::from_query(Query::new(Name::from_ascii("s.example.").unwrap(), RecordType::A), DnsRequestOptions::default());
+        let t_before = timers_len();
+        let mut rs = match catch(|| mux.send_message(req)) {
+            Ok(rs) => rs,
+            Err(p) => return Err(Finding { key: format!("panic:{}", vcore::short_loc(&p.loc)), what: format!("send_message panicked with {} requests in flight: {}", *in_flight, p.msg) }),
+        };
+        let t_after = timers_len();
+        let mut out = vec![];
+        while let Poll::Ready(Some(m)) = wire.poll_next_unpin(&mut cx) {
+            out.push(m);
+        }
+        if out.len() == 1 {
+            let id = vref::wire::read_header(out[0].bytes()).map(|h| h.id).unwrap_or(0);
+            if let Some(j) = holder[id as usize] {
+                return Err(Finding {
+                    key: "stream-inflight-id-collision".into(),
+                    what: format!("request {i} was sent with id {id:#06x} while request {j} with the same id is in flight ({} requests in flight)", *in_flight),
+                });
+            }
+            holder[id as usize] = Some(i);
+            *in_flight += 1;
+            reqs.push(R { id, rx: Some(rs), timer: if t_after > t_before { Some(t_after - 1) } else { None }, live: true });
+            Ok(true)
+        } else {
+            // refused: the stream has to say so at once
+            match rs.poll_next_unpin(&mut cx) {
+                Poll::Ready(Some(Err(_))) | Poll::Ready(None) => {}
+                _ => return Err(Finding { key: "stream-refused-request-stays-pending".into(), what: format!("request {i} put nothing on the wire and its stream does not fail ({} in flight)", *in_flight) }),
+            }
+            reqs.push(R { id: 0, rx: None, timer: None, live: false });
+            Ok(false)
+        }
+    };
+
+    // ---- phase 1: fill up
+    let mut sends = 0usize;
+    while in_flight < limit && sends < 400_000 {
+        sends += 1;
+        match send(&mut mux, &mut reqs, &mut holder, &mut in_flight) {
+            Ok(true) => {}
+            Ok(false) => refused += 1,
+            Err(f) => return Some(f),
+        }
+    }
+    if in_flight < limit {
+        return Some(Finding { key: "stream-id-space-not-fillable".into(), what: format!("only {in_flight} of {limit} requests could be put in flight with {sends} sends") });
+    }
+    l.outcome(&format!("mux:saturation:{}-ids-in-flight", in_flight));
+    let _ = refused;
+    // ---- phase 2: the id space / the request limit is exhausted: nothing more may be accepted
+    for _ in 0..20 {
+        match send(&mut mux, &mut reqs, &mut holder, &mut in_flight) {
+            // more than max_active_requests in flight is back-pressure, not routing: observation
+            // (with all 65,536 ids taken an acceptance is an id collision and was reported above)
+            Ok(true) => l.outcome("obs:mux-saturation-request-accepted-beyond-max-active"),
+            Ok(false) => l.outcome("mux:saturation:send-refused-when-full"),
+            Err(f) => return Some(f),
+        }
+    }
+    // ---- phase 3: second step - remove half of them, one way or the other, and refill
+    let mut removed_ids: Vec<u16> = vec![];
+    for (i, r) in reqs.iter_mut().enumerate() {
+        if !r.live {
+            continue;
+        }
+        match i % 4 {
+            1 => {
+                r.rx = None; // cancelled
+            }
+            2 => {
+                if let Some(t) = r.timer {
+                    timer_fire(t);
+                }
+            }
+            _ => continue,
+        }
+        r.live = false;
+        holder[r.id as usize] = None;
+        in_flight -= 1;
+        removed_ids.push(r.id);
+    }
+    let first_gen = reqs.len();
+    let _ = mux.poll_next_unpin(&mut cx);
+    // timed-out callers see the end of their streams
+    for r in reqs.iter_mut() {
+        if !r.live {
+            if let Some(rx) = r.rx.as_mut() {
+                match rx.poll_next_unpin(&mut cx) {
+                    Poll::Ready(Some(Ok(_))) => return Some(Finding { key: "stream-unexpected-response".into(), what: "a timed-out request received a response nobody sent".into() }),
+                    _ => {}
+                }
+                r.rx = None;
+            }
+        }
+    }
+    let mut sends = 0usize;
+    while in_flight < limit && sends < 400_000 {
+        sends += 1;
+        if let Err(f) = send(&mut mux, &mut reqs, &mut holder, &mut in_flight) {
+            return Some(f);
+        }
+    }
+    if in_flight < limit {
+        // released requests still occupy their ids / slots: back-pressure, which the statement
+        // does not speak about (lead review of m9) - observation only
+        l.outcome("obs:mux-saturation-released-ids-not-reusable");
+    } else {
+        l.outcome("mux:saturation:refilled-with-reused-ids");
+    }
+    // ---- phase 4: late replies to removed requests (their ids now belong to others) and
+    // replies to current holders; expected receiver = whoever holds the id now
+    let mut expect: Vec<Vec<[u8; 4]>> = vec![];
+    expect.resize(reqs.len(), vec![]);
+    let mut seq = 0u32;
+    let mut push = |id: u16, tag: u8| {
+        seq += 1;
+        let marker = [tag, (seq >> 16) as u8, (seq >> 8) as u8, seq as u8];
+        let q = Q { name: labels("s.example"), qtype: 1, qclass: 1 };
+        sh.lock().unwrap().q.push_back(Inb::Bytes(wirekit::response(id, &[q.clone()], &q.name, marker)));
+        marker
+    };
+    let mut reissued_seen = false;
+    for (n, id) in removed_ids.iter().enumerate() {
+        if n % 53 == 0 {
+            let m = push(*id, 20);
+            if let Some(h) = holder[*id as usize] {
+                expect[h].push(m);
+                reissued_seen |= h >= first_gen;
+            }
+        }
+    }
+    if reissued_seen {
+        l.outcome("mux:saturation:late-reply-reaches-new-holder-of-the-id");
+    }
+    for id in (0..IDS).step_by(97) {
+        if let Some(h) = holder[id] {
+            let m = push(id as u16, 21);
+            expect[h].push(m);
+        }
+    }
+    // the multiplexer reads 100 messages per poll and wakes itself: poll until it has read all
+    for _ in 0..200 {
+        let _ = mux.poll_next_unpin(&mut cx);
+        if sh.lock().unwrap().q.is_empty() {
+            break;
+        }
+    }
+    let _ = mux.poll_next_unpin(&mut cx);
+    for (i, r) in reqs.iter_mut().enumerate() {
+        let Some(rx) = r.rx.as_mut() else { continue };
+        let mut got = vec![];
+        for _ in 0..16 {
+            match rx.poll_next_unpin(&mut cx) {
+                Poll::Ready(Some(Ok(resp))) => {
+                    let b = resp.as_buffer();
+                    let id = vref::wire::read_header(b).map(|h| h.id).unwrap_or(0);
+                    if id != r.id {
+                        return Some(Finding { key: "stream-misrouted-response:saturated".into(), what: format!("request {i} (id {:#06x}) received a response carrying id {id:#06x}", r.id) });
+                    }
+                    got.push(wirekit::marker_of(b).unwrap_or_default());
+                }
+                Poll::Ready(Some(Err(e))) => return Some(Finding { key: "stream-pending-request-terminated".into(), what: format!("request {i} failed on an open connection: {e}") }),
+                _ => break,
+            }
+        }
+        if got != expect[i] {
+            return Some(Finding {
+                key: if got.len() < expect[i].len() { "stream-response-not-delivered".into() } else { "stream-unexpected-response".into() },
+                what: format!("request {i} (id {:#06x}, live {}): {} response(s) reached it, the connection carried {} for the holder of its id", r.id, r.live, got.len(), expect[i].len()),
+            });
+        }
+    }
+    // ---- phase 5: the connection ends
+    sh.lock().unwrap().q.push_back(Inb::End);
+    let _ = mux.poll_next_unpin(&mut cx);
+    for (i, r) in reqs.iter_mut().enumerate() {
+        let Some(rx) = r.rx.as_mut() else { continue };
+        match rx.poll_next_unpin(&mut cx) {
+            Poll::Ready(Some(Err(_))) => {}
+            other => {
+                return Some(Finding {
+                    key: "stream-closed-connection-request-not-failed".into(),
+                    what: format!("the connection closed with {in_flight} requests pending, request {i} saw {:?}", other.map(|o| o.map(|r| r.is_ok()))),
+                })
+            }
+        }
+    }
+    l.outcome("mux:saturation:all-pending-failed-on-close");
+    None
+}
+
+/// `--replay` of a saturation / signed-multiplexer case.
+pub fn replay_other(ctx: &Ctx, case: &Value) -> bool {
+    match case["part"].as_str() {
+        Some("mux-saturation") => {
+            let max_active = case["max_active"].as_u64().unwrap_or(70_000) as usize;
+            ctx.with_local(|l| {
+                l.eval();
+                if let Some(f) = saturation_case(max_active, l) {
+                    l.violation(&f.key, &f.what, || case.clone());
+                }
+            });
+            true
+        }
+        Some("mux-tsig") => {
+            let seq: Vec<(usize, usize)> = case["messages"]
+                .as_array()
+                .map(|a| {
+                    a.iter()
+                        .filter_map(|m| m.as_str())
+                        .filter_map(|m| m.rsplit_once(':'))
+                        .filter_map(|(k, t)| Some((TSIG_ITEMS.iter().position(|x| *x == k)?, t.parse::<usize>().ok()?)))
+                        .collect()
+                })
+                .unwrap_or_default();
+            ctx.with_local(|l| {
+                l.eval();
+                if let Some(f) = tsig_case(&seq, l) {
+                    l.violation(&f.key, &f.what, || case.clone());
+                }
+            });
+            true
+        }
+        _ => false,
+    }
+}
+
+fn run_saturation(ctx: &Ctx) {
+    // id space is the limit / request limit = id space / request limit just below
+    let limits = [70_000usize, 65_536, 65_535];
+    ctx.set("mux_saturation_limits", json!(limits));
+    ctx.par_run(limits.len() as u64, 1, |i, l| {
+        l.eval();
+        if let Some(f) = saturation_case(limits[i as usize], l) {
+            l.violation(&f.key, &f.what, || json!({"part": "mux-saturation", "max_active": limits[i as usize]}));
+        }
+    });
+    ctx.traces_validated.fetch_add(limits.len() as u64, Ordering::SeqCst);
+}
+
+// ------------------------------------------------------------------------------------------
+// multiplexer with a TSIG signer: responses are routed by id AND have to verify
+
+pub const TSIG_ITEMS: [&str; 4] = ["signed", "bad-mac", "unsigned", "signed-for-the-other-request"];
+
+/// Two signed (IXFR) requests in flight; every sequence of <= n messages over
+/// {correctly signed, MAC bit flipped, unsigned, signed against the OTHER request's MAC} x
+/// {id of request 0, id of request 1}, read in one poll. Reference signer/verifier: vref::tsig.
+fn tsig_case(seq: &[(usize, usize)], l: &mut Local) -> Option<Finding> {
+    timers_reset();
+    let sh = Arc::new(Mutex::new(StreamShared::default()));
+    let (handle, mut wire) = BufDnsStreamHandle::new(addr());
+    let signer = hickory_proto::rr::TSigner::new(
+        crate::udp::TSIG_SECRET.to_vec(),
+        hickory_proto::rr::rdata::tsig::TsigAlgorithm::HmacSha256,
+        Name::from_ascii(crate::udp::TSIG_KEY_NAME).unwrap(),
+        300,
+    )
+    .unwrap();
+    let mut mux = DnsMultiplexer::new(SimStream { sh: sh.clone(), addr: addr() }, handle).with_signer(signer);
+    let mut cx = Context::from_waker(Waker::noop());
+    let key = crate::udp::tsig_key();
+    let kname = vref::tsig::labels_of(crate::udp::TSIG_KEY_NAME);
+    let mut rx = vec![];
+    let mut wire_reqs: Vec<Vec<u8>> = vec![];
+    for i in 0..2 {
+        let req = DnsRequest::from_query(Query::new(Name::from_ascii(format!("r{i}.example.")).unwrap(), RecordType::IXFR), DnsRequestOptions::default());
+        rx.push(mux.send_message(req));
+        match wire.poll_next_unpin(&mut cx) {
+            Poll::Ready(Some(m)) => wire_reqs.push(m.bytes().to_vec()),
+            _ => return Some(Finding { key: "stream-signed-request-not-sent".into(), what: format!("request {i} did not go on the wire") }),
+        }
+    }
+    let signed: Vec<vref::tsig::Signed> = match wire_reqs.iter().map(|b| vref::tsig::split(b)).collect::<Result<Vec<_>, _>>() {
+        Ok(s) => s,
+        Err(e) => return Some(Finding { key: "stream-request-not-signed".into(), what: format!("a request that has to be signed carries no valid trailing TSIG: {e:?}") }),
+    };
+    let ids: Vec<u16> = wire_reqs.iter().map(|b| u16::from_be_bytes([b[0], b[1]])).collect();
+    // expected per request: (marker, kind index, first message for this request?)
+    let mut expect: Vec<Vec<([u8; 4], usize, bool)>> = vec![vec![], vec![]];
+    for (n, (kind, target)) in seq.iter().enumerate() {
+        let marker = [30, *kind as u8, *target as u8, n as u8];
+        let q = req_question(*target);
+        let q = Q { qtype: 251, ..q };
+        let plain = wirekit::response(ids[*target], &[q.clone()], &q.name, marker);
+        let (time, own, other) = (signed[*target].tsig.time, &signed[*target].tsig.mac, &signed[1 - *target].tsig.mac);
+        let bytes = match *kind {
+            0 => vref::tsig::sign(&plain, &key, &kname, time, 300, Some(own)),
+            1 => {
+                let mut b = vref::tsig::sign(&plain, &key, &kname, time, 300, Some(own));
+                let p = b.len() - 7;
+                b[p] ^= 1;
+                b
+            }
+            2 => plain,
+            _ => vref::tsig::sign(&plain, &key, &kname, time, 300, Some(other)),
+        };
+        let first = expect[*target].is_empty();
+        expect[*target].push((marker, *kind, first));
+        sh.lock().unwrap().q.push_back(Inb::Bytes(bytes));
+    }
+    if let Err(p) = catch(|| mux.poll_next_unpin(&mut cx)) {
+        return Some(Finding { key: format!("panic:{}", vcore::short_loc(&p.loc)), what: format!("poll_next panicked: {}", p.msg) });
+    }
+    for i in 0..2 {
+        let mut items: Vec<Result<[u8; 4], String>> = vec![];
+        for _ in 0..16 {
+            match rx[i].poll_next_unpin(&mut cx) {
+                Poll::Ready(Some(Ok(resp))) => {
+                    let b = resp.as_buffer();
+                    if u16::from_be_bytes([b[0], b[1]]) != ids[i] {
+                        return Some(Finding { key: "stream-misrouted-response:signed".into(), what: format!("request {i} received a response with another id") });
+                    }
+                    items.push(Ok(wirekit::marker_of(b).unwrap_or_default()));
+                }
+                Poll::Ready(Some(Err(e))) => items.push(Err(e.to_string())),
+                _ => break,
+            }
+        }
+        // every Ok item is a message addressed to this request that the reference accepts
+        for it in &items {
+            if let Ok(m) = it {
+                match expect[i].iter().find(|e| e.0 == *m) {
+                    None => return Some(Finding { key: "stream-misrouted-response:signed".into(), what: format!("request {i} received a message addressed to the other request") }),
+                    Some((_, kind, _)) if *kind != 0 => {
+                        return Some(Finding {
+                            key: format!("stream-delivered-bad-tsig:{}", TSIG_ITEMS[*kind]),
+                            what: format!("request {i} (signed by the multiplexer) received as a valid response a message that is {}", TSIG_ITEMS[*kind]),
+                        })
+                    }
+                    _ => {}
+                }
+            }
+        }
+        // one item per message with this id; the first message, if correctly signed, arrives as Ok
+        if items.len() != expect[i].len() {
+            return Some(Finding {
+                key: if items.len() < expect[i].len() { "stream-response-not-delivered:signed".into() } else { "stream-unexpected-response".into() },
+                what: format!("request {i}: the connection carried {} message(s) with its id, its receiver yielded {} item(s)", expect[i].len(), items.len()),
+            });
+        }
+        if let (Some((m, 0, true)), Some(first)) = (expect[i].first(), items.first()) {
+            if first.as_ref().ok() != Some(m) {
+                return Some(Finding {
+                    key: "stream-valid-signed-response-rejected".into(),
+                    what: format!("request {i}: the first message with its id is correctly signed (reference signer) but reached the caller as {first:?}"),
+                });
+            }
+            l.outcome("mux:tsig:valid-first-response-delivered");
+        }
+        if items.iter().any(|x| x.is_err()) {
+            l.outcome("mux:tsig:unverifiable-message-reported-as-error");
+        }
+    }
+    None
+}
+
+fn run_tsig(ctx: &Ctx) {
+    let max_len = if ctx.quick() { 3 } else { 4 };
+    let syms: Vec<(usize, usize)> = (0..4).flat_map(|k| (0..2).map(move |t| (k, t))).collect();
+    let mut seqs: Vec<Vec<(usize, usize)>> = vec![vec![]];
+    let mut last = seqs.clone();
+    for _ in 0..max_len {
+        let mut next = vec![];
+        for s in &last {
+            for x in &syms {
+                let mut t = s.clone();
+                t.push(*x);
+                next.push(t);
+            }
+        }
+        seqs.extend(next.iter().cloned());
+        last = next;
+    }
+    ctx.set("mux_tsig_sequences", json!(seqs.len()));
+    ctx.par_run(seqs.len() as u64, 16, |i, l| {
+        l.eval();
+        let seq = &seqs[i as usize];
+        if let Some(f) = tsig_case(seq, l) {
+            l.violation(&f.key, &f.what, || {
+                json!({"part": "mux-tsig", "messages": seq.iter().map(|(k, t)| format!("{}:{}", TSIG_ITEMS[*k], t)).collect::<Vec<_>>()})
+            });
+        }
+    });
+    ctx.traces_validated.fetch_add(seqs.len() as u64, Ordering::SeqCst);
 }
